@@ -125,7 +125,17 @@ def run_paths(stmts, env, loop_iters=(0, 1), stop_at=None, opaque_calls=True, ma
     # module-level constants of the analysed function's module are visible (locals/params shadow them)
     fobj = next((getattr(s_, "_func", None) for s_ in stmts if getattr(s_, "_func", None) is not None), None)
     if fobj is not None:
-        base = module_consts(fobj.module)
+        base = dict(module_consts(fobj.module))
+        # constants of the function's own class are visible as self.NAME / cls.NAME / ClassName.NAME
+        cls_ = getattr(fobj, "cls", None)
+        if cls_ is not None:
+            for nm, val in getattr(cls_, "attrs", {}).items():
+                try:
+                    cv = Folder(dict(base)).fold(val)
+                except Exception:
+                    continue
+                for pre in ("self", "cls", cls_.name):
+                    base[f"{pre}.{nm}"] = cv
         if base:
             env = {**{k: v for k, v in base.items() if k not in env}, **env}
     for p in pe.block(stmts):
